@@ -1,4 +1,54 @@
-//! C28 unit component (page resources) — filled in by C28.
-pub fn run(_args: &[&str]) -> String {
-    "bad-op".into()
+//! C28 unit component: a real contiguous `MonotonePageResource` (cursor + `PageAccounting` +
+//! `commit_pages`), no memory involved. `pages <op> …`; every answer ends with `res=<reserved>
+//! com=<committed> cur=<cursor>`:
+//!   new <start> <bytes> | reserve <n> | alloc <reserved> <required> | clear <n> | reset | resetcursor <top>
+use crate::proto::*;
+use crate::VerifVM;
+use mmtk::util::Address;
+use mmtk::verif::immix::UnitMonotone;
+use std::sync::Mutex;
+
+static PR: Mutex<Option<UnitMonotone<VerifVM>>> = Mutex::new(None);
+
+fn tail(p: &UnitMonotone<VerifVM>) -> String {
+    let (r, c, cur) = p.counters();
+    format!("res={} com={} cur={:#x}", r, c, cur.as_usize())
+}
+
+pub fn run(args: &[&str]) -> String {
+    // the page resource survives a panic of one op (the counters may then be half updated, exactly
+    // as in the real code); `new` starts over
+    let mut g = PR.lock().unwrap_or_else(|e| e.into_inner());
+    if args[0] == "new" {
+        let (start, bytes) = (unum(args[1]), unum(args[2]));
+        if start % (1 << 22) != 0 || bytes == 0 || bytes % 4096 != 0 || start == 0 {
+            return "bad-op".into();
+        }
+        crate::ensure_mmtk();
+        let p = UnitMonotone::<VerifVM>::new(unsafe { Address::from_usize(start) }, bytes);
+        let t = tail(&p);
+        *g = Some(p);
+        return format!("ok {t}");
+    }
+    let Some(p) = g.as_ref() else { return "err no-pr".into() };
+    match args[0] {
+        "reserve" => format!("{} {}", p.reserve(unum(args[1])), tail(p)),
+        "alloc" => match p.alloc(unum(args[1]), unum(args[2])) {
+            Some((s, n, nc)) => format!("{:#x} {} {} {}", s.as_usize(), n, nc, tail(p)),
+            None => format!("fail {}", tail(p)),
+        },
+        "clear" => {
+            p.clear(unum(args[1]));
+            format!("ok {}", tail(p))
+        }
+        "reset" => {
+            p.reset();
+            format!("ok {}", tail(p))
+        }
+        "resetcursor" => {
+            p.reset_cursor(unsafe { Address::from_usize(unum(args[1])) });
+            format!("ok {}", tail(p))
+        }
+        _ => "bad-op".into(),
+    }
 }
